@@ -112,4 +112,18 @@ PROPS = {
             rapid_stage("thesaurus-vectors", "TestC12", 120, 600, tags="verif,vectors", tshards=4),
         ],
     },
+    "C07": {
+        "level": "exploration",
+        "rule": "three stages. enum: bounded-exhaustive - for N documents one segment per chunk size in {1,2,3,N} holds all 2^N-1 postings sets in two fields (x: per-(term,doc) distinct frequency/length/locations; y: frequency 1 without locations, so singletons become 1-hit entries after a merge), built / opened / merged once; for every P, every exclusion set E, every flag set in {FFF,TTF,TTT} and EVERY Next/Advance(t in (last,N]) sequence until nil plus one call after nil the results, Count and ActualBitmap/DocNum1Hit are compared with a reference iterator (quick: N<=4 all flags, N=5 full-detail flags; thorough: N<=6, N=7). large: rapid cases over 1023..2300-document lists, modes {1026,1025,1024,100,1,7,512}, random exclusion, random Next/Advance scripts with deltas around chunk boundaries, ReplaceActual(subset) on fresh iterators. reuse: rapid histories of list/iter/next/advance/count/replace actions over two segments passing the previous list/iterator (or the empty sentinel) back as preallocation; non-trivial = a combination with >= 2 non-excluded hits (enum), an Advance that skips on a > 1024 list (large), a list recycled for a different term/field/segment (reuse)",
+        "assumptions": COMMON_ASSUME + ["Advance targets are strictly beyond the last returned document; a recycled list invalidates iterators derived from it; ReplaceActual is applied to a fresh bitmap-backed iterator with a subset of its actual bitmap"],
+        "technique": "bounded-exhaustive enumeration of postings sets x exclusion sets x call sequences against a reference iterator, plus property-based testing (rapid) of large lists and preallocation-reuse histories",
+        "level_text": "Small-scope exhaustive (the finite space up to the stated bound is enumerated completely and flagged exhaustive) plus randomised exploration with shrinking beyond it.",
+        "level_note": "Trusts the 20-line reference iterator and the reference model; exhaustive only within the stated bound.",
+        "stages": [
+            {"name": "enum", "test": "TestC07Enum", "tags": "verif",
+             "quick": {"shards": 4, "timeout": 600}, "thorough": {"shards": 14, "timeout": 3000}},
+            rapid_stage("large", "TestC07Large", 150, 1500),
+            rapid_stage("reuse", "TestC07Reuse", 400, 4000),
+        ],
+    },
 }
